@@ -106,6 +106,24 @@ func lookupClass(c *vcase) string {
 	return strings.Join(out, "+")
 }
 
+// lookupDivergence names how the experimental compiler got past a reference the specification
+// (and the stable compiler) reject: "agg-stop-miss-resolved-outward:<kind>:<scope>" when the first
+// component of a compound name is bound to an aggregate of that kind that lacks the remainder
+// (lookup rule L-agg-stop-miss) and the experimental compiler nevertheless resolved the name;
+// otherwise "exp-accepts:<lookup rule ids>".
+func lookupDivergence(c *vcase) string {
+	lc := lookupClass(c)
+	for _, part := range strings.Split(lc, "+") {
+		if strings.HasPrefix(part, "L-agg-stop-miss:") {
+			f := strings.Split(part, ":") // L-agg-stop-miss:<scope tag>:<kind>
+			if len(f) == 3 {
+				return "agg-stop-miss-resolved-outward:" + f[2] + ":" + f[1]
+			}
+		}
+	}
+	return "exp-accepts:" + lc
+}
+
 func brokenRule(c *vcase) string {
 	b := append([]string{}, c.Broken...)
 	sort.Strings(b)
@@ -342,7 +360,7 @@ var reasonPatterns = map[string][]string{
 	"V-import-cycle":         {"cycle found in imports"},
 	"V-dup-symbol":           {"already defined at"},
 	"V-pkg-symbol":           {"already defined as a package", "already defined at"},
-	"V-p2-label-missing":     {"field has no label"},
+	"V-p2-label-missing":     {"field has no label", "syntax error: unexpected \"group\""},
 	"V-p3-required":          {"label 'required' is not allowed in proto3"},
 	"V-ed-optional":          {"label 'optional' is not allowed in editions"},
 	"V-ed-required":          {"label 'required' is not allowed in proto3 or editions"},
@@ -350,6 +368,8 @@ var reasonPatterns = map[string][]string{
 	"V-map-label":            {"syntax error: unexpected '<'", "syntax error: unexpected '>'"},
 	"V-map-in-oneof":         {"syntax error: unexpected '<'", "syntax error: unexpected '>'"},
 	"V-ext-required":         {"extension fields cannot be 'required'"},
+	"V-p3-group":             {"groups are not allowed in proto3 or editions", "syntax error: unexpected \"group\""},
+	"V-ed-group":             {"groups are not allowed in proto3 or editions", "syntax error: unexpected \"group\""},
 	"V-num-positive":         {"must be greater than zero"},
 	"V-num-max":              {"higher than max allowed tag number"},
 	"V-num-impl-reserved":    {"is in disallowed reserved range"},
@@ -369,7 +389,8 @@ var reasonPatterns = map[string][]string{
 	"V-default-repeated":     {"default value cannot be set because field is repeated"},
 	"V-default-type":         {"option default: expecting"},
 	"V-default-message":      {"default value cannot be set because field is a message"},
-	"V-default-enum-value":   {"has no value named", "option default: expecting enum name"},
+	"V-default-enum-value":   {"has no value named"},
+	"V-default-enum-ident":   {"option default: expecting enum name"},
 	"V-json-conflict":        {"conflicts with default JSON name"},
 	"V-ref-resolve":          refReasons,
 	"V-ref-kind":             refReasons,
@@ -502,7 +523,7 @@ func (r *runner) c27(c *vcase, raw json.RawMessage, rd *ws.Rendered, targets []s
 		case !c.Valid && !sOK:
 			cls = "c27:exp-accepts-invalid:" + rule
 			if strings.HasPrefix(rule, "V-ref-") {
-				cls = "c27:lookup:exp-accepts:" + lookupClass(c)
+				cls = "c27:lookup:" + lookupDivergence(c)
 			}
 		default:
 			cls = "c27:stable-accepts-invalid:" + rule
